@@ -29,14 +29,17 @@ package remote
 //@   invariant "range files" kept: len(dir.Files) > 0 ==> dir.Files[len(dir.Files)-1].Name == last
 //@   invariant "range files" bounded: len(dir.Files) <= idx
 //@   invariant "range files" seen: idx > 0 ==> last == files[idx-1].Name
+//@   invariant "range files" input_in_order: forall i int :: 0 < i && i < len(files) ==> files[i-1].Name <= files[i].Name
 //@   invariant "range dirs" sorted: forall i int :: 0 < i && i < len(dir.Directories) ==> dir.Directories[i-1].Name < dir.Directories[i].Name
 //@   invariant "range dirs" kept: len(dir.Directories) > 0 ==> dir.Directories[len(dir.Directories)-1].Name == last
 //@   invariant "range dirs" bounded: len(dir.Directories) <= idx
 //@   invariant "range dirs" seen: idx > 0 ==> last == dirs[idx-1].Name
+//@   invariant "range dirs" input_in_order: forall i int :: 0 < i && i < len(dirs) ==> dirs[i-1].Name <= dirs[i].Name
 //@   invariant "range syms" sorted: forall i int :: 0 < i && i < len(dir.Symlinks) ==> dir.Symlinks[i-1].Name < dir.Symlinks[i].Name
 //@   invariant "range syms" kept: len(dir.Symlinks) > 0 ==> dir.Symlinks[len(dir.Symlinks)-1].Name == last
 //@   invariant "range syms" bounded: len(dir.Symlinks) <= idx
 //@   invariant "range syms" seen: idx > 0 ==> last == syms[idx-1].Name
+//@   invariant "range syms" input_in_order: forall i int :: 0 < i && i < len(syms) ==> syms[i-1].Name <= syms[i].Name
 //@   callsite uploadinfo.EntryFromProto files_strictly_sorted [C28]: \
 //@      forall i int :: 0 < i && i < len(dir.Files) ==> dir.Files[i-1].Name < dir.Files[i].Name
 //@   callsite uploadinfo.EntryFromProto directories_strictly_sorted [C28]: \
